@@ -158,7 +158,17 @@ func runCloseSend(rep *Report, cc closeCase) {
 	t0 := time.Now()
 	cerr := c.Close(websocket.StatusCode(cc.Row.Code), reason)
 	dur := time.Since(t0)
-	c.CloseNow()
+	// Close has returned -- whatever it returned, also for a code or reason it refused to send: the connection is closed for good
+	{
+		ctx, cancel := context.WithTimeout(context.Background(), time.Second)
+		if err := c.Write(ctx, websocket.MessageText, []byte("x")); err == nil {
+			rep.miss("write-succeeded-after-close", cc, fmt.Sprintf("right after Close returned %v", cerr))
+		}
+		cancel()
+	}
+	if err := c.CloseNow(); !errors.Is(err, net.ErrClosed) {
+		rep.miss("closenow-after-close-not-ErrClosed", cc, fmt.Sprintf("CloseNow after Close (which returned %v) returned %v", cerr, err))
+	}
 	var frames []ws.Frame
 	select {
 	case frames = <-peerDone:
